@@ -81,6 +81,7 @@ type table struct {
 	Login     loginFacts   `json:"login"`
 	Sessions  sessionFacts `json:"sessions"`
 	Limiter   limiterFacts `json:"limiter"`
+	Life      lifeFacts    `json:"life"`
 }
 
 var (
@@ -279,6 +280,7 @@ func main() {
 				scanLogin(p, &tab.Login)
 				scanSessionKeys(p, &tab.Sessions)
 				scanLimiter(p, &tab.Limiter)
+				scanLife(p, &tab.Life)
 			}
 		}
 	}
@@ -816,6 +818,7 @@ func writeOutputs(verif string, tab *table) {
 	}
 	b.WriteString("].\n")
 	b.WriteString(coqStartup(&tab.Startup))
+	b.WriteString(coqLife(&tab.Life))
 	gen := filepath.Join(verif, "coq", "Gen")
 	if err := os.MkdirAll(gen, 0o755); err != nil {
 		fatal("%v", err)
